@@ -37,7 +37,7 @@ def budget(tier):
     ex = int(os.environ.get("VERIF_EXAMPLES", "0"))
     if tier == "quick":
         return dict(shards=16, examples=ex or 80, shrink_calls=60, shard_timeout=1500, time_budget=100)
-    return dict(shards=16, examples=ex or 2500, shrink_calls=400, shard_timeout=6 * 3600, time_budget=3 * 3600)
+    return dict(shards=16, examples=ex or 20000, shrink_calls=400, shard_timeout=6 * 3600, time_budget=1500)
 
 
 @st.composite
